@@ -32,6 +32,8 @@ ALPHABETS = {
     'strchars': ['a', "'", '"', '\\', '\n', 'b', 'r', 'f', 'u', ' ', '{', '}', '#'],
     'fws': ["f'", 'f"""', '{', '}', "'", '"""', 'a', ' ', '\n', '\x0b', '\x1c', '\x85', '\xa0', '\u2028', ':',
             '\\', '#', '\r', '\f', '!r'],
+    'pep8': ['def a(): pass\n', 'class B: pass\n', '\n', '#c\n', '    x = 1\n', 'import os\n', 'x = 1\n', 'def f():\n',
+             '    return\n', '@d\n', 'x=1  # c\n', 'if a :\n', '\t', '  ', 'y = (\n', ')\n'],
     'contstr': ["'", '"', '\\\n', 'a', 'b', 'r', '\n', ' ', "'''", '\\'],
     'ffc': ['#', '\f', 'x', '\n', ' ', 'a', 'if a:'],
     'lines15': ['a', ' ', '\n', '\r', '\f', '\x0b', '\x1c', '\x1d', '\x1e', '\x85', '\u2028', '\u2029'],
